@@ -22,16 +22,16 @@ type Val struct {
 
 // Ptr is a Go-side description of an addressable location.
 type Ptr struct {
-	Reg  *regKey // register cell (non-escaping local)
-	Comp string  // heap component base name
-	Dim  int     // 0 global, 1 ref, 2 ref+idx
-	Ref  string
-	Idx  string
-	T0   types.Type // type stored at Comp root
-	Path []int      // struct field path below T0
-	Sub  string     // index into an array-sorted scalar leaf
-	Elem types.Type // type of the location
-	WinLo, WinHi string // dim 2: index window [WinLo,WinHi) the pointer was derived from
+	Reg          *regKey // register cell (non-escaping local)
+	Comp         string  // heap component base name
+	Dim          int     // 0 global, 1 ref, 2 ref+idx
+	Ref          string
+	Idx          string
+	T0           types.Type // type stored at Comp root
+	Path         []int      // struct field path below T0
+	Sub          string     // index into an array-sorted scalar leaf
+	Elem         types.Type // type of the location
+	WinLo, WinHi string     // dim 2: index window [WinLo,WinHi) the pointer was derived from
 }
 
 type regKey struct {
@@ -41,12 +41,20 @@ type regKey struct {
 }
 
 type State struct {
-	regs map[regKey]*Val
-	heap map[string]string // component (incl. globals, ghost, $next) -> term
+	regs  map[regKey]*Val
+	heap  map[string]string // component (incl. globals, ghost, $next) -> term
+	epoch int               // components absent from heap have version "<leaf>@e<epoch>" ("@0" for epoch 0)
+}
+
+func epochName(leaf string, epoch int) string {
+	if epoch == 0 {
+		return sym(leaf + "@0")
+	}
+	return sym(fmt.Sprintf("%s@e%d", leaf, epoch))
 }
 
 func (s *State) clone() *State {
-	n := &State{regs: make(map[regKey]*Val, len(s.regs)), heap: make(map[string]string, len(s.heap))}
+	n := &State{regs: make(map[regKey]*Val, len(s.regs)), heap: make(map[string]string, len(s.heap)), epoch: s.epoch}
 	for k, v := range s.regs {
 		n.regs[k] = v
 	}
@@ -265,15 +273,19 @@ type Ctx struct {
 	quant         int
 	watermark     int
 	specFuns      map[*ssa.Function]string
+	compSorts     map[string]string
+	nepoch        int
+	atCallSeen    map[*AtClause]bool
 	quantVar      string
 	quantOff      string
 }
 
 type writeSet struct {
-	regs  map[regKey]bool
-	comps map[string]map[string]bool // leaf comp -> set of ref terms ("" = whole)
-	wins  map[string][][2]string     // leaf comp + "\x00" + ref -> windows (nil entry = whole array)
-	whole map[string]bool
+	regs       map[regKey]bool
+	comps      map[string]map[string]bool // leaf comp -> set of ref terms ("" = whole)
+	wins       map[string][][2]string     // leaf comp + "\x00" + ref -> windows (nil entry = whole array)
+	whole      map[string]bool
+	everything bool
 }
 
 func newWriteSet() *writeSet {
@@ -382,10 +394,14 @@ func (c *Ctx) H(st *State, leaf, sort string) string {
 	if t, ok := st.heap[leaf]; ok {
 		return t
 	}
-	name := sym(leaf + "@0")
+	name := epochName(leaf, st.epoch)
 	c.declare(name, sort)
-	// note: not stored into st.heap so that every state derived from the initial
-	// one agrees on the initial version.
+	if c.compSorts == nil {
+		c.compSorts = map[string]string{}
+	}
+	c.compSorts[leaf] = sort
+	// note: not stored into st.heap so that every state derived from the same
+	// epoch agrees on that version.
 	return name
 }
 
@@ -880,7 +896,15 @@ func (c *Ctx) mergeStates(sts []*State, conds []string) *State {
 	if len(sts) == 1 {
 		return sts[0].clone()
 	}
-	out := &State{regs: map[regKey]*Val{}, heap: map[string]string{}}
+	out := &State{regs: map[regKey]*Val{}, heap: map[string]string{}, epoch: sts[0].epoch}
+	for _, s := range sts[1:] {
+		if s.epoch != out.epoch {
+			// different unknown-heap epochs: components never touched so far become unknown
+			c.nepoch++
+			out.epoch = c.nepoch
+			break
+		}
+	}
 	// registers
 	keys := map[regKey]bool{}
 	for _, s := range sts {
@@ -940,6 +964,12 @@ func (c *Ctx) mergeStates(sts []*State, conds []string) *State {
 			hk[k] = true
 		}
 	}
+	if out.epoch != sts[0].epoch {
+		// epochs differ: every component known so far must be joined explicitly
+		for k := range c.compSorts {
+			hk[k] = true
+		}
+	}
 	var hlist []string
 	for k := range hk {
 		hlist = append(hlist, k)
@@ -951,7 +981,7 @@ func (c *Ctx) mergeStates(sts []*State, conds []string) *State {
 		for i, s := range sts {
 			t, ok := s.heap[k]
 			if !ok {
-				t = sym(k + "@0")
+				t = epochName(k, s.epoch)
 			}
 			terms[i] = t
 			if t != terms[0] {
@@ -959,15 +989,15 @@ func (c *Ctx) mergeStates(sts []*State, conds []string) *State {
 			}
 		}
 		if same {
-			if _, ok := sts[0].heap[k]; ok {
+			if _, ok := sts[0].heap[k]; ok || out.epoch != sts[0].epoch {
 				out.heap[k] = terms[0]
 			}
 			continue
 		}
 		// need the sort: look at declared sort of any version
-		srt := ""
+		srt := c.compSorts[k]
 		for _, t := range terms {
-			if s, ok := c.declared[t]; ok {
+			if s, ok := c.declared[t]; ok && srt == "" {
 				srt = s
 				break
 			}
